@@ -81,6 +81,16 @@ def programs(ctx):
         for wn in WRAPS:
             pre, src = wrap(wn, core)
             out.append({"id": "%s|%s" % (cn, wn), "src": src + "\np(99)", "pre": pre, "threads": th + THREADS.get(wn, 0)})
+    # the wrapped core as the LAST thing the program does: nothing after it polls, the call itself must still report the interruption
+    for cn in ("recv", "loop", "fib", "send"):
+        core, th = CORES[cn]
+        for wn in WRAPS:
+            pre, src = wrap(wn, core)
+            out.append({"id": "%s|%s|last" % (cn, wn), "src": src, "pre": pre, "threads": th + THREADS.get(wn, 0)})
+    for nm, src in (("recv-nilco", "cq = make(chan int64)\nxq = (<-cq) ?? 1"), ("spin-fn-nilco", "func wq() {\n for {\n }\n}\nzq = wq() ?? 5"),
+                    ("recv-fn-try", "func wq() {\n cq = make(chan int64)\n return <-cq\n}\ntry {\n wq()\n} catch e {\n}"), ("spin-fn-try-finally", "func wq() {\n for {\n }\n}\ntry {\n wq()\n} catch e {\n} finally {\n}"),
+                    ("recv-nilco-in-fn", "func wq() {\n cq = make(chan int64)\n return (<-cq) ?? 1\n}\nwq()"), ("send-fn-nilco", "func wq() {\n cq = make(chan int64)\n cq <- 1\n}\nzq = wq() ?? 5")):
+        out.append({"id": "%s|last" % nm, "src": src, "pre": "", "threads": 0})
     pairs = [(a, b) for a in WRAPS for b in WRAPS if not b.startswith("xfn")]
     rng.shuffle(pairs)
     npairs = 40 if ctx.quick() else 160
